@@ -85,7 +85,7 @@ fn check_steps(run: &Run, prog: &[OpCode]) -> &'static str {
 
 fn skeleton_alphabet() -> Vec<OpCode> {
     use OpCode::*;
-    let mut skel = vec![pi(1), Noop, Jmp(0), Jmp(1), Jmp(2), Jmp(3), Bnz(0), Bnz(1), Bnz(2), Bez(1)];
+    let mut skel = vec![pi(1), PushB(vec![]), Noop, Jmp(0), Jmp(1), Jmp(2), Jmp(3), Bnz(0), Bnz(1), Bnz(2), Bez(1)];
     for i in [1u16, 2, 3] {
         for n in [0u16, 1, 2, 3, 4] {
             skel.push(Loop(i, n));
@@ -413,6 +413,16 @@ pub fn run(run: &Run) {
                 run.outcome(&format!("tower:{}", check_steps(run, &p)));
                 towers += 1;
             }
+        }
+    }
+    // every instruction that needs no operand on the stack, repeated 50000 times by a loop: each execution is paid for
+    {
+        use OpCode::*;
+        let singles = vec![Noop, PushB(vec![]), PushB(vec![1]), PushB(vec![0; 33]), PushB(vec![0; 255]), PushI(0u8.into()), PushIC(0u8.into()), PushIC(U256::MAX), BEmpty, VEmpty, LoadImm(0), Dup];
+        for op in singles {
+            let p = vec![pi(1), StoreImm(0), pi(1), Loop(50000, 1), op];
+            run.outcome(&format!("loop-over-single-opcode:{}", check_steps(run, &p)));
+            towers += 1;
         }
     }
     run.states_add(towers);
